@@ -432,3 +432,6 @@ def replay(cs, env):
     for c, cr in env.execute([cs]):
         judge(res, c, cr)
     return res
+
+
+RULE = RULE + ' Operand edits include definition<->convention swaps and definition permutations; result documents can refuse writes (read-only) while IsExecutable / other executions re-check the operation; a build is recognised by a write of the result document only.'
